@@ -64,6 +64,12 @@ func c13Revalidate(c *Ctx) *RuleResult {
 			}
 			// (a) the same condition revalidates
 			okV := isIdentityTest(ifs.Cond)
+			// (a') `if !pile.Lock(x) { if <identity test> { ... } }`
+			if !okV && len(ifs.Body.List) > 0 {
+				if inner, ok := ifs.Body.List[0].(*ast.IfStmt); ok {
+					okV = isIdentityTest(inner.Cond)
+				}
+			}
 			// (b) `if pile.Lock(x) { leave }` followed by an identity test
 			if !okV {
 				if blk := enclosingBlock(u.Decl.Body, ifs); blk != nil {
@@ -179,7 +185,9 @@ func c18Unused(c *Ctx) *RuleResult {
 			}
 		}
 	}
-	lastNil := d.FindBool(func(k string) bool { return strings.Contains(k, "lastResponse") && !strings.Contains(k, "closedFile") && strings.Contains(k, "nil") })
+	lastNil := d.FindBool(func(k string) bool {
+		return strings.Contains(k, "lastResponse") && !strings.Contains(k, "closedFile") && strings.Contains(k, "nil")
+	})
 	closedNil := d.FindBool(func(k string) bool { return strings.Contains(k, "closedFile") && strings.Contains(k, "nil") })
 	conf := d.FindBool(func(k string) bool { return strings.HasSuffix(k, ".confirmed") })
 	if len0 == nil || lastNil == nil || closedNil == nil || conf == nil {
@@ -289,6 +297,21 @@ func c19InitialFlag(c *Ctx) *RuleResult {
 					lid, ok := l.(*ast.Ident)
 					if !ok || (info.Defs[lid] != v && info.Uses[lid] != v) || i >= len(as.Rhs) {
 						continue
+					}
+					// `flag := !found` with `_, found := <map of lock-owners>[key]`: true exactly when the
+					// lock-owner did not exist, i.e. when this call has to create it
+					if ue, ok := ast.Unparen(as.Rhs[i]).(*ast.UnaryExpr); ok && ue.Op == token.NOT {
+						if fid, ok := ast.Unparen(ue.X).(*ast.Ident); ok {
+							if src := commaOkSource(u, fid); src != nil {
+								if ix, ok := ast.Unparen(src).(*ast.IndexExpr); ok {
+									if tv, ok := info.Types[ix.X]; ok {
+										if m, ok := tv.Type.Underlying().(*types.Map); ok && namedIs(m.Elem(), modPath+"/"+nfsPkg, "nfs40LockOwnerState") {
+											continue
+										}
+									}
+								}
+							}
+						}
 					}
 					switch exprStr(as.Rhs[i]) {
 					case "false":
